@@ -118,6 +118,13 @@ def run(chk):
         fam = ["CASS" + x * k + "F", "CASS" + y * k + "F", "CASS" + x * (k - 1) + y + "F", x * k, y * k, "CASS" + x * k + y + "F"]
         for comp in (1, 2):
             configs.append((fam, rng.choice([1, 2]), comp, None, rng.choice(["lev", "ham"]), k))
+    # one length class with frame-shifted pairs in Hamming mode (equal length does not make Hamming = Levenshtein), k >= 2
+    for _ in range(4 if not thorough else 30):
+        L = rng.randint(5, 8)
+        root = "".join(rng.choice("ACDQS") for _ in range(L))
+        fam = [root, root[1:] + rng.choice("ACD"), rng.choice("ACD") + root[:-1], root[:2] + root[3:] + "F", gen.mutate(rng, root, "ACDQS", 1) or root]
+        fam = [x for x in fam if len(x) == L] + ["".join(rng.choice("ACDQS") for _ in range(L)) for _ in range(2)]
+        configs.append((fam, rng.choice([1, 2, 3]), rng.choice([1, 2, 5]), rng.choice([None, None, 2]), "ham", rng.choice([2, 3])))
     # a walk through compressions on overlapping lists in one process (several compressions share a vector length but not the
     # residue-to-bin map): nothing computed for one compression may be reused for another
     walk_base = gen.repertoire(rng, 8, minlen=5, maxlen=7, allow_empty=False)
